@@ -7,6 +7,7 @@ import AskarModel.Model.Spec
 import AskarModel.Lemmas.Refine
 import AskarModel.Model.SqlShape
 import AskarModel.Generated.Stmts
+import AskarModel.Generated.Tables
 
 namespace Askar.Store
 
@@ -76,5 +77,10 @@ theorem count_stmt_matches_source : shapeOk Generated.countQuery Expected.countQ
 open Askar.Sql in
 theorem tag_stmts_match_source :
     shapeOk Generated.tagInsertQuery Expected.tagInsertQuery = true ∧ shapeOk Generated.tagDeleteQuery Expected.tagDeleteQuery = true := by decide
+
+
+/-- the integers behind `Kind` (`items.kind`; the generators and the driver use 1 = Kms, 2 = Item) are the CURRENT source's
+    `enum EntryKind` discriminants (regenerated from askar-storage/src/entry.rs on every run) -/
+theorem entry_kinds_match_source : Askar.Generated.Tables.entryKinds = [("Kms", 1), ("Item", 2)] := by decide
 
 end Askar.Store
